@@ -117,19 +117,19 @@ def gen_cases(ctx):
   rng = ctx.rng
   g = predgen.Gen(rng)
   out = [Case(t, 'fixed') for t in predgen.FIXED_FORMULAS]
-  for _ in range(ctx.n(320, 9000)):
+  for _ in range(ctx.n(320, 4000)):
     text, recform = predgen.finish(g.formula())
     out.append(Case(text, 'valid', recform))
-  for _ in range(ctx.n(120, 2500)):
+  for _ in range(ctx.n(120, 1200)):
     text, recform = predgen.finish(g.unsupported())
     out.append(Case(text, 'unsupported', recform))
-  for _ in range(ctx.n(40, 800)):
+  for _ in range(ctx.n(40, 400)):
     text, recform = predgen.finish(g.odd_const())
     out.append(Case(text, 'oddconst', recform))
-  for _ in range(ctx.n(30, 600)):
+  for _ in range(ctx.n(30, 300)):
     text, recform = predgen.finish(g.kwsplat())
     out.append(Case(text, 'kwsplat', recform))
-  for _ in range(ctx.n(120, 3000)):
+  for _ in range(ctx.n(120, 1500)):
     text, _ = predgen.finish(g.malformed())
     out.append(Case(text, 'malformed'))
   if ctx.tier == 'thorough':
@@ -196,7 +196,7 @@ def correspond(ctx):
       if c.comments:
         ctx.bump('with-comment')
     # evaluation cases for the concrete semantics (expressions the parser accepted, any shape)
-    if c.body is not None and c.in_subset and len(eval_cases) < ctx.n(240, 6000):
+    if c.body is not None and c.in_subset and len(eval_cases) < ctx.n(240, 2500):
       code = compile(ast.Expression(body=c.body), '<c40>', 'eval')
       for _ in range(2):
         env = predgen.gen_env(ctx.rng, c.body)
